@@ -63,7 +63,7 @@ Proof. vm_compute. reflexivity. Qed.
 (* a derivation in which the same name is a function head and a variable, and a suffix sits next to a name *)
 Definition e_xf : expr := EAdd (EApp [120] [EVar [102]]) (EMul (ENum [50] (Some [107])) (EVar [120])).
 Lemma ex_names_hyps :
-  wf_expr e_xf = true /\ check_brackets (strip_spaces s_xf) = None /\ lex (strip_spaces s_xf) = Some (render e_xf) /\
+  wf_expr e_xf = true /\ lex (strip_spaces s_xf) = Some (render e_xf) /\
   enames e_xf = mkNames [[102]; [120]] [[120]] [[107]].
 Proof. vm_compute. repeat split. Qed.
 
@@ -71,6 +71,6 @@ Lemma ex_names_after_history : exists l,
   snd (step junk_q faithful (run junk_q faithful init history) (OParse s_xf)) = VP (VTree (flatten e_xf) l) /\
   nperm l (mkNames [[102]; [120]] [[120]] [[107]]).
 Proof.
-  destruct ex_names_hyps as (W & B & L & N). rewrite <- N.
+  destruct ex_names_hyps as (W & L & N). rewrite <- N.
   apply names_exact_string; assumption.
 Qed.
